@@ -54,7 +54,7 @@ def farm_behaviours(seed, tier, tdir):
     path = os.path.join(tdir, "farm_behaviours.ndjson")
     open(path, "w").write("\n".join(out[:n]) + "\n")
     m = re.search(r"(\d+) states checked, (\d+) traces generated", p.stdout)
-    return {"args": ["--behaviours", path, "--rate", "1000", "--fstart", "1", "--fend", "5"],
+    return {"args": ["--behaviours", path, "--rate", "1260", "--fstart", "1", "--fend", "5"],
             "info": {"behaviours_distinct": len(seen), "replayed": min(n, len(out)),
                      "sim_states": int(m.group(1)) if m else 0, "sample_behaviour": json.loads(out[0])}}
 
@@ -105,7 +105,7 @@ PROPS = {
     "C07": {"level": "model_checking", "models": ["MC_Farm"], "families": ["farm"]},
     "C08": {"level": "model_checking", "models": ["MC_FarmLife"], "families": ["farm"]},
     "C09": {"level": "model_checking", "models": ["MC_FarmLife", "MC_Math"], "families": ["farm"]},
-    "C10": {"level": "model_checking", "models": ["MC_Farm"], "families": ["farm"]},
+    "C10": {"level": "model_checking", "models": ["MC_Farm"], "families": ["farm", "pool"]},
     "C11": {"level": "model_checking", "models": ["MC_FarmLife"], "families": ["farm"]},
     "C18": {"level": "model_checking", "models": ["MC_Epoch"], "families": ["epoch"]},
 }
